@@ -414,7 +414,7 @@ def run_symx(prop, tier, seed, only=None):
                 continue
             need_feas = pth["ndec"] > 0 or pth["pre"] or pth["status"] == "panic"
             if need_feas and not pth.get("variant"):
-                tasks.append((s["name"], pth, None, min(to, 30)))
+                tasks.append((s["name"], pth, None, min(to, 10 if tier == "quick" else 60)))
     # phase 1: feasibility
     def job(t):
         name, pth, g, to = t
@@ -478,6 +478,12 @@ def symx_report(prop, tier, seed, index, results, feas, meta, known):
     discharged, undecided, refuted, disagreements = 0, [], [], []
     shas = set()
     samples = []
+    # a goal that used lemmas as hypotheses counts only if those lemma goals were discharged on the same path
+    verdict_of = {(name, pth["path"], g["name"]): r["verdict"] for (name, pth, g, to), r in results}
+    for (name, pth, g, to), r in results:
+        if r["verdict"] == "unsat" and any(verdict_of.get((name, pth["path"], ln)) != "unsat" for ln in g.get("needs", [])):
+            r["verdict"] = "unknown"
+            r["solvers"] = dict(r.get("solvers", {}), lemma="a lemma this goal depends on is not discharged")
     for (name, pth, g, to), r in results:
         key = "%s::%s" % (name, g["name"])
         if r["verdict"] == "unsat":
